@@ -184,11 +184,14 @@ class Report:
             seen_ids.add(k["id"])
             lines.append(f"KNOWN-FINDING: property={self.prop} {k['id']}: {k['what']}")
         vio_lines = []
-        for f in new_violations:
+        for i, f in enumerate(new_violations):
+            if i >= 25:
+                lines.append(f"  ... and {len(new_violations) - 25} further failed obligations (listed in the evidence file)")
+                break
             path = write_replay(f)
             suffix = "" if f.replayed else " no-failing-input-found"
             vio_lines.append(f"VIOLATION property={self.prop} replay={path}{suffix}")
-            lines.append(f"  obligation {f.obligation}: {f.what}")
+            lines.append(f"  obligation {f.obligation}: {f.what[:400]}")
         cov = {
             "obligations": self.obligations,
             "discharged": self.discharged,
